@@ -14,6 +14,7 @@ import (
 	"testing"
 	"time"
 
+	"github.com/Vedant9500/WTF/zz_verif/sim/simrand"
 	"pgregory.net/rapid"
 )
 
@@ -266,6 +267,7 @@ func runPropertyEnum[C any](t *testing.T, prop string, enum []C, gen func(*rapid
 				o = &Outcome{Skip: true}
 			}
 		}()
+		simrand.Install(1) // the runtime seeds math/rand at random in every process; a case that wants other draws installs its own seed
 		return run(c)
 	}
 	handle := func(c C, fatal func(sig string)) {
